@@ -74,6 +74,83 @@ def check(case: dict):
     return {"nt": (0 in lens) and nonempty >= 2, "labels": labels}
 
 
+def _observe(col, lens_now, sig):
+    """len / item identity / per-member lengths against the members the collection holds right now"""
+    members = col.maze_datasets
+    concat = [m for ds in members for m in ds.mazes]
+    n = call(f"{sig}:len", len, col)
+    require(n == len(concat), f"{sig}:len", f"len(collection)={n}, members hold {[len(d.mazes) for d in members]}")
+    for i in range(len(concat)):
+        got = call(f"{sig}:getitem", col.__getitem__, i)
+        require(got is concat[i], f"{sig}:getitem-wrong-maze", f"member lengths {[len(d.mazes) for d in members]}: item {i} is not the maze at position {i} of "
+                f"the concatenation (it is at position {next((k for k, m in enumerate(concat) if m is got), None)})")
+    dl = call(f"{sig}:dataset_lengths", lambda: list(col.dataset_lengths))
+    require(dl == [len(d.mazes) for d in members], f"{sig}:dataset_lengths", f"{dl} vs {[len(d.mazes) for d in members]}")
+
+
+def check_history(case: dict):
+    """the same statement after the members of a live collection changed length: queries are interleaved with member edits
+    (in-place change of a member's maze list, replacement of a member by a filtered copy, update_self_config)"""
+    from maze_dataset import MazeDataset, MazeDatasetCollection, MazeDatasetCollectionConfig, MazeDatasetConfig
+
+    lens, grids, ops = case["lens"], case["grids"], case["ops"]
+    cfgs = [MazeDatasetConfig(name=f"m{j}", grid_n=grids[j], n_mazes=lens[j], seed=100 + j) for j in range(len(lens))]
+    ccfg = MazeDatasetCollectionConfig(name="col", maze_dataset_configs=cfgs)
+    members = [MazeDataset(cfg=cfgs[j], mazes=[_maze(grids[j], 7 * j + k) for k in range(lens[j])]) for j in range(len(lens))]
+    col = call("C16:construct", MazeDatasetCollection, ccfg, members)
+    edited = False
+    n_obs_after_edit = 0
+    fresh = 1000
+    for op in ops:
+        kind = op[0]
+        if kind == "observe":
+            _observe(col, None, "C16:history")
+            if not edited:
+                mz = call("C16:mazes", lambda: col.mazes)
+                concat = [m for ds in col.maze_datasets for m in ds.mazes]
+                require(len(mz) == len(concat) and all(a is b for a, b in zip(mz, concat)), "C16:flattened-list", "flattened list differs from the concatenation")
+            else:
+                n_obs_after_edit += 1
+        elif kind == "shrink":
+            ds = col.maze_datasets[op[1] % len(col.maze_datasets)]
+            ds.mazes = ds.mazes[: min(op[2], len(ds.mazes))]
+            edited = True
+        elif kind == "grow":
+            j = op[1] % len(col.maze_datasets)
+            ds = col.maze_datasets[j]
+            fresh += 1
+            ds.mazes = ds.mazes + [_maze(grids[j], fresh)]
+            edited = True
+        elif kind == "replace":
+            j = op[1] % len(col.maze_datasets)
+            col.maze_datasets[j] = call("C16:history:truncate_count", col.maze_datasets[j].filter_by.truncate_count, op[2])
+            edited = True
+        elif kind == "update":
+            call("C16:history:update_self_config", col.update_self_config)
+        else:
+            raise ValueError(kind)
+    _observe(col, None, "C16:history")
+    final = [len(d.mazes) for d in col.maze_datasets]
+    return {"nt": edited and n_obs_after_edit >= 1 and sum(1 for x in final if x > 0) >= 2,
+            "labels": sorted({o[0] for o in ops}) + (["edited-then-observed"] if n_obs_after_edit else [])}
+
+
+@st.composite
+def _histories(draw, maxm, maxlen):
+    n = draw(st.integers(2, maxm))
+    lens = [draw(st.sampled_from([0] + list(range(1, maxlen + 1)))) for _ in range(n)]
+    grids = [2 + ((j + draw(st.integers(0, 1))) % 3) for j in range(n)]
+    op = st.one_of(
+        st.just(["observe"]),
+        st.tuples(st.just("shrink"), st.integers(0, n - 1), st.integers(0, maxlen)).map(list),
+        st.tuples(st.just("grow"), st.integers(0, n - 1)).map(list),
+        st.tuples(st.just("replace"), st.integers(0, n - 1), st.integers(0, maxlen)).map(list),
+        st.just(["update"]),
+    )
+    ops = draw(st.lists(op, min_size=1, max_size=8))
+    return {"lens": lens, "grids": grids, "ops": [["observe"]] + ops}
+
+
 def _exhaustive(shard, nshards):
     k = 0
     for n in range(1, 5):
@@ -107,4 +184,5 @@ def subs(tier: str):
     return [
         Sub("exhaustive-012", check, "exhaustive", cases=_exhaustive, exhaustive_flag=True),
         Sub("random", check, "hypothesis", strategy=lambda: _random(7 if q else 12, 4 if q else 8), examples=25 if q else 400),
+        Sub("member-edit-histories", check_history, "hypothesis", strategy=lambda: _histories(5 if q else 8, 3 if q else 5), examples=40 if q else 600),
     ]
